@@ -272,6 +272,22 @@ def run(ctx):
         ctx.check(has_fact(g, False, "pastPrekillHookTimeout("), "hook-only-inside-window", "guarded_by", rts.loc(f),
                   "no hook is fired once the prekill_hook_timeout window is over",
                   "firePrekillHook is reachable after the timeout window closed", witness_path(rts, fi, f))
+        # ... and EVERY candidate about to be killed inside the window gets one: next to the window test the firing depends on nothing
+        # that remembers earlier candidates (a fallback victim after a failed kill has its hook fired again)
+        carried = set()
+        for bn in body_nodes(rts, L):
+            for w in rts.walk(bn):
+                wn = rts.nodes[w]
+                tgt = wn.get("l") if wn["k"] == "bin" and wn.get("op") in ("=", "|=", "&=", "+=") else (wn.get("sub") if wn["k"] == "un" and wn.get("op") in ("++", "--") else None)
+                if tgt is not None:
+                    tn = rts.nodes[rts.strip(tgt)]
+                    if tn["k"] == "ref" and tn.get("dk") in ("local", "param"):
+                        carried.add(tn["name"])
+        extra = [(k, p_) for k, p_ in g if isinstance(k, str) and "pastPrekillHookTimeout(" not in k and any(re.search(r"(?<![\w.])%s(?![\w(])" % re.escape(nm), k) for nm in carried)]
+        ctx.check(not extra, "hook-for-every-candidate-inside-window", "guarded_by (no history condition)", rts.loc(f),
+                  "inside the window the hook is fired for every candidate, first or fallback",
+                  "firePrekillHook is additionally guarded by %s: a fallback candidate - tried after the first victim's kill signalled nothing - is killed "
+                  "with no hook fired although the timeout window is still open" % extra)
         X = Expander(P, rts)
         ctx.check(X(rts.nodes[f]["args"][0]) == "param:nextBestOptionStack.back().cgroupCtx.get()", "hook-for-the-candidate",
                   "provenance", rts.loc(f), "the hook is fired for the candidate about to be killed",
